@@ -1,25 +1,63 @@
 #!/bin/bash
-# re-applies every seeded change to /repo, runs the check(s) named in its meta.json (quick tier, VERIF_SEED as given or 1),
-# restores /repo, and writes seeded/VERIFY.md: which checks report a VIOLATION for which change
+# Re-confirms every seeded change against the current trees and writes seeded/VERIFY.md.
+# For each seeded/<id>/: a scratch worktree of /repo HEAD, patch.diff applied there (a patch made
+# against an older HEAD is re-applied with reduced context and noted), the existing suite run with
+# it, the demonstration run with it, then the check(s) named in meta.json (quick tier unless TIER
+# is set) run against that worktree (VERIF_REPO) from a snapshot of /verif. /repo is not touched.
+# usage: tools_seed_verify.sh [id ...]      JOBS=<parallel runs, default 4>
 cd /verif
-out=seeded/VERIFY.md
-echo "# seeded changes vs checks — $(date -u +%FT%TZ), /verif $(git rev-parse --short HEAD), /repo $(git -C /repo rev-parse --short HEAD), tier ${TIER:-quick}, VERIF_SEED=${VERIF_SEED:-1}" > $out
-echo >> $out; echo "| seeded change | check | exit | first violation line |" >> $out; echo "|---|---|---|---|" >> $out
-if ! git -C /repo diff --quiet; then echo "/repo dirty"; exit 2; fi
-miss=0
-for d in seeded/*/; do
-  id=$(basename $d); [ -f $d/patch.diff ] || continue
-  checks=$(python3 -c "import json,re,sys; m=json.load(open('$d/meta.json')); print(' '.join(dict.fromkeys(re.findall(r'C\d\d', m['caught_by']))))")
-  git -C /repo apply $d/patch.diff || { echo "| $id | - | patch does not apply | |" >> $out; continue; }
-  caught=0
+export GOFLAGS=-mod=mod GOPROXY=off GOSUMDB=off GOTOOLCHAIN=local
+snap=/var/tmp/vsnapV.$$
+rsync -a --exclude .git --exclude replays --exclude evidence /verif/ $snap/
+mkdir -p $snap/replays $snap/evidence $snap/out
+PK="./asm/... ./cache/... ./db ./db/fs/... ./db/mem/... ./db/postgres/... ./engine/... ./lang/... ./persist/... ./render/... ./resource/... ./state/... ./vm/..."
+one() {
+  id=$1; d=/verif/seeded/$id; res=$snap/out/$id
+  [ -f $d/patch.diff ] || return
+  wt=/var/tmp/vwtV.$$.$id
+  git -C /repo worktree add -q --detach $wt HEAD || { echo "| $id | - | worktree failed | |" > $res; return; }
+  note=""
+  ( cd $wt && git apply $d/patch.diff 2>/dev/null ) || { ( cd $wt && git apply -C1 $d/patch.diff 2>/dev/null ) && note=" (re-applied with reduced context)"; } || { echo "| $id | - | patch does not apply | |" > $res; git -C /repo worktree remove --force $wt; return; }
+  suite=pass; ( cd $wt && go test -vet=off -count=1 $PK >/dev/null 2>&1 ) || suite=FAIL
+  demo="-"
+  for t in $d/*_test.go; do
+    [ -f "$t" ] || continue
+    p=$(grep -m1 '^package ' $t | awk '{print $2}' | sed 's/_test$//')
+    case "$p" in fs) pkg=db/fs;; mem) pkg=db/mem;; postgres) pkg=db/postgres;; db) pkg=db;; main) pkg=dev/disasm;; *) pkg=$p;; esac
+    [ -d $wt/$pkg ] || continue
+    cp $t $wt/$pkg/zz_seed_$(basename $t)
+  done
+  if find $wt -name "zz_seed_*" | grep -q .; then
+    demo="fails"
+    pkgs=$(cd $wt && find . -name "zz_seed_*" | xargs -n1 dirname | sort -u)
+    ( cd $wt && go test -vet=off -count=1 $pkgs >/dev/null 2>&1 ) && demo="PASSES"
+    find $wt -name "zz_seed_*" -delete
+  fi
+  checks=$(python3 -c "import json,re; m=json.load(open('$d/meta.json')); print(' '.join(dict.fromkeys(re.findall(r'C\d\d', m['caught_by']))))")
+  : > $res; caught=0
   for c in $checks; do
-    o=$(VERIF_EVIDENCE_DIR=/var/tmp/verif-evidence-scratch ./check $c --tier ${TIER:-quick} 2>&1); rc=$?
-    line=$(echo "$o" | grep -v "rapid\] draw\|KNOWN-FINDING" | grep -m1 "violated\|DATA RACE\|VERIF-VIOLATION" | cut -c1-160 | tr '|' '/')
-    echo "| $id | $c | $rc | $line |" >> $out
+    o=$(cd $snap && VERIF_REPO=$wt VERIF_EVIDENCE_DIR=/var/tmp/verif-evidence-scratch.$id ./check $c --tier ${TIER:-quick} 2>&1); rc=$?
+    line=$(echo "$o" | grep -v "rapid\] draw\|KNOWN-FINDING" | grep -m1 "violated\|DATA RACE\|VERIF-VIOLATION\|regression" | sed 's/^ *//' | cut -c1-170 | tr '|' '/')
+    echo "| $id$note | suite $suite, demo $demo | $c exit $rc | $line |" >> $res
     [ $rc -eq 1 ] && caught=1
   done
-  git -C /repo checkout -- .
-  [ $caught -eq 1 ] || { miss=$((miss+1)); echo "MISSED: $id"; }
-done
-echo >> $out; echo "missed: $miss" >> $out
-echo "missed: $miss"
+  [ $caught -eq 1 ] || echo "MISSED $id" >> $snap/out/_missed
+  [ $suite = pass ] || echo "SUITE-FAILS $id" >> $snap/out/_missed
+  [ "$demo" = PASSES ] && echo "DEMO-PASSES $id" >> $snap/out/_missed
+  rm -rf /var/tmp/verif-evidence-scratch.$id
+  git -C /repo worktree remove --force $wt
+}
+export -f one; export snap PK TIER
+ids="$*"; [ -n "$ids" ] || ids=$(ls seeded | grep -v VERIFY)
+echo $ids | tr ' ' '\n' | xargs -P ${JOBS:-4} -I{} bash -c 'one {}'
+out=seeded/VERIFY.md
+if [ -z "$*" ]; then
+  echo "# seeded changes vs checks — $(date -u +%FT%TZ), /verif $(git rev-parse --short HEAD), /repo $(git -C /repo rev-parse --short HEAD), tier ${TIER:-quick}, VERIF_SEED=${VERIF_SEED:-1}" > $out
+  echo >> $out; echo "| seeded change | in a scratch worktree with the patch | check | first violation line |" >> $out; echo "|---|---|---|---|" >> $out
+  for id in $ids; do cat $snap/out/$id 2>/dev/null >> $out; done
+  echo >> $out; echo "problems: $(cat $snap/out/_missed 2>/dev/null | tr '\n' ';')" >> $out
+else
+  for id in $ids; do cat $snap/out/$id 2>/dev/null; done
+fi
+cat $snap/out/_missed 2>/dev/null; echo "done"
+rm -rf $snap
